@@ -180,6 +180,30 @@ impl IdentityRegistry {
     }
 }
 
+/// Verification hooks (read-only views of the private registry state; compiled only with the
+/// `verif-hooks` feature).
+#[cfg(feature = "verif-hooks")]
+impl IdentityRegistry {
+    /// Returns the association map (token key -> identity, sorted by key) and the registration
+    /// records (identity -> expiry, sorted by identity) of the current state.
+    #[allow(clippy::type_complexity)]
+    pub fn verif_snapshot(&self) -> (Vec<(String, [u8; 32])>, Vec<([u8; 32], Instant)>) {
+        let state = self.state.load();
+        (
+            state
+                .associations
+                .iter()
+                .map(|(k, v)| (k.to_string(), *v))
+                .collect(),
+            state
+                .sessions
+                .iter()
+                .map(|(k, v)| (*k, v.expires_at))
+                .collect(),
+        )
+    }
+}
+
 impl SnapTunIdentityRegistry for IdentityRegistry {
     fn register(
         &self,
